@@ -5,12 +5,19 @@ From V Require Import Base.Word Spec.Compress Spec.Tree.
 Import ListNotations.
 Open Scope N_scope.
 
-Definition b3_root_output := root_output compress.
-Definition b3_hash := hash compress.
-Definition b3_keyed_hash := keyed_hash compress.
-Definition b3_derive_key := derive_key compress.
-Definition b3_hash_mode := hash_mode compress.
-Definition b3_xof_mode := xof_mode compress.
+(* chaining values are the first 8 words of the compression output; root output
+   blocks are all 16 words, little-endian *)
+Definition spec_c8 (cv block : list N) (blen counter flags : N) : list N :=
+  firstn 8 (compress cv block blen counter flags).
+Definition spec_c64 (cv block : list N) (blen counter flags : N) : list N :=
+  bytes_of_words (compress cv block blen counter flags).
+
+Definition b3_root_output := root_output spec_c8.
+Definition b3_hash := hash spec_c8 spec_c64.
+Definition b3_keyed_hash := keyed_hash spec_c8 spec_c64.
+Definition b3_derive_key := derive_key spec_c8 spec_c64.
+Definition b3_hash_mode := hash_mode spec_c8 spec_c64.
+Definition b3_xof_mode := xof_mode spec_c8 spec_c64.
 
 (* BLAKE3("") and BLAKE3("abc") *)
 Definition digest_empty : list N :=
